@@ -18,6 +18,7 @@ import (
 	"github.com/scrapli/scrapligo/driver/netconf"
 	"github.com/scrapli/scrapligo/driver/opoptions"
 	"github.com/scrapli/scrapligo/driver/options"
+	"github.com/scrapli/scrapligo/transport"
 
 	"verifgo/sim"
 )
@@ -71,7 +72,11 @@ func one(nc bool, mode int, fault string, withOp, twice, concurrentClose bool) {
 		}
 		s.CloseUnblocks = mode
 		s.Start()
-		d, err := netconf.NewDriver("h", options.WithCustomTransport(s), options.WithAuthBypass(),
+		var impl transport.Implementation = s
+		if rnd()%3 == 0 {
+			impl = sim.WithCloseErr(s, nil)
+		}
+		d, err := netconf.NewDriver("h", options.WithCustomTransport(impl), options.WithAuthBypass(),
 			options.WithTimeoutOps(5*time.Second), options.WithReadDelay(50*time.Microsecond))
 		if err != nil || d.Open() != nil {
 			fmt.Println("SETUP-ERROR")
@@ -85,7 +90,11 @@ func one(nc bool, mode int, fault string, withOp, twice, concurrentClose bool) {
 		dev.Handle = func(c *sim.CLI, line string) string { return "out of " + line + "\n" }
 		dev.CloseUnblocks = mode
 		dev.Start()
-		d, err := generic.NewDriver("h", options.WithCustomTransport(dev), options.WithAuthBypass(),
+		var impl transport.Implementation = dev
+		if rnd()%3 == 0 {
+			impl = sim.WithCloseErr(dev, nil)
+		}
+		d, err := generic.NewDriver("h", options.WithCustomTransport(impl), options.WithAuthBypass(),
 			options.WithTimeoutOps(5*time.Second), options.WithReadDelay(50*time.Microsecond))
 		if err != nil || d.Open() != nil {
 			fmt.Println("SETUP-ERROR")
